@@ -268,11 +268,11 @@ func (db *SingleBucketBackend) ensureMeta(
 		}
 
 		return &Metadata{
-			objectPath,
-			mtime,
-			size,
-			hash,
-			map[string]string{},
+			File:    objectPath,
+			ModTime: mtime,
+			Size:    size,
+			Hash:    hash,
+			Meta:    map[string]string{},
 		}, nil
 
 	} else if err != nil {
